@@ -13,6 +13,8 @@ EPOCH = datetime.datetime(1970, 1, 1, tzinfo=UTC)
 FIXED = [datetime.timezone(datetime.timedelta(hours=5, minutes=30)),
          datetime.timezone(datetime.timedelta(hours=14)),
          datetime.timezone(datetime.timedelta(hours=-11))]
+ZONE_FIELDS = [('CEST', 7200), ('EST', -18000), ('UTC', 0), ('IST', 19800),
+               ('LHDT', 39600), (None, None)]
 DST_ZONES = ['America/New_York', 'Europe/London', 'Australia/Lord_Howe',
              'Australia/Sydney', 'America/Sao_Paulo', 'Africa/Casablanca']
 
@@ -33,6 +35,15 @@ def forms(t, zones):
     yield 'struct_time-isdst1', st1, t
     st2 = time.struct_time(tuple(st[:8]) + (-1,))
     yield 'struct_time-isdst-1', st2, t
+    # 11-field struct_times (as time.localtime / strptime('%z') build them):
+    # the zone name and UTC offset they carry do not change the reading -
+    # the fields are read as UTC whatever they say
+    for k, (zone, off) in enumerate(ZONE_FIELDS):
+        if k >= 3 and t % 7:
+            continue
+        for isdst in ((0, 1) if t % 7 == 0 else ((k + 1) % 2,)):
+            yield 'struct_time-%s%s-isdst%d' % (zone, off, isdst), \
+                time.struct_time(tuple(st[:8]) + (isdst, zone, off)), t
     for name, zi in zones:
         yield 'aware-' + name, aware.astimezone(zi), t
         # the same wall-clock fields with both folds
@@ -53,6 +64,7 @@ def main():
     violations = []
     samples = []
     local_offsets = set()
+    env_bad = 0
     for t in instants:
         local_offsets.add(time.localtime(min(t, 2**31 - 1)).tm_gmtoff)
         zsel = zones if t % 7 == 0 or len(instants) < 50 else zones[t % 6:
@@ -125,6 +137,54 @@ def main():
             if n % 40000 == 1:
                 samples.append({'form': label, 'instant': t,
                                 'bytes': data.hex(), 'decoded': shown})
+    # struct_times the process environment builds (their fields differ from
+    # child to child, so they are judged case by case and stay out of the
+    # digest): localtime(), gmtime(), strptime with %z, datetime.timetuple()
+    def as_utc(st):
+        d = datetime.datetime(*st[:6], tzinfo=UTC) - EPOCH
+        return d.days * 86400 + d.seconds
+
+    for t in instants[::max(1, len(instants) // 3000)]:
+        env = [('localtime()', time.localtime(t)),
+               ('gmtime()', time.gmtime(t)),
+               ('naive.timetuple()', (EPOCH + datetime.timedelta(
+                   seconds=t)).replace(tzinfo=None).timetuple())]
+        for name, zi in zones[t % 6:t % 6 + 1]:
+            env.append(('aware-%s.timetuple()' % name, (
+                EPOCH + datetime.timedelta(seconds=t)).astimezone(
+                    zi).timetuple()))
+        if t < 2 ** 31:
+            text = time.strftime('%Y-%m-%d %H:%M:%S', time.gmtime(t))
+            for z in ('+0200', '-0500', '+0000'):
+                env.append(('strptime(%z=' + z + ')', time.strptime(
+                    text + ' ' + z, '%Y-%m-%d %H:%M:%S %z')))
+        for label, st in env:
+            absolute = as_utc(st)
+            if absolute < 0:
+                continue
+            n += 1
+            want = struct.pack('>Q', absolute)
+            got = []
+            try:
+                got.append(encode.timestamp(st))
+                got.append(encode.field_table({'t': st})[-8:])
+                got.append(encode.field_array([st])[-8:])
+                got.append(frame.marshal(header.ContentHeader(
+                    0, 1, commands.Basic.Properties(timestamp=st)), 1)[-9:-1])
+                got.append(frame.marshal(commands.Queue.Declare(
+                    queue='q', arguments={'t': [st]}), 1)[-9:-1])
+            except Exception as exc:  # noqa
+                got.append(repr(exc).encode())
+            if any(g != want for g in got) or len(got) != 5:
+                if len(violations) < 5:
+                    violations.append({
+                        'stage': 'encode (direct, table value, array '
+                                 'element, property, method argument)',
+                        'form': label, 'instant': t, 'value': repr(st),
+                        'want': want.hex() + ' (the fields read as UTC)',
+                        'got': [g.hex() if len(g) == 8 else g.decode(
+                            'utf-8', 'replace') for g in got]})
+                env_bad += 1
     # table values and properties go through the same code: one probe each
     probe = datetime.datetime(2020, 3, 8, 2, 30)     # naive, DST gap in NY
     tb = encode.field_table({'t': probe, 's': time.struct_time(
@@ -140,6 +200,7 @@ def main():
                            'value': repr(probe), 'want': struct.pack(
                                '>Q', want_secs).hex(), 'got': tb.hex()})
     print(json.dumps({'cases': n, 'digest': digest.hexdigest(),
+                      'env_struct_time_mismatches': env_bad,
                       'violations': violations, 'samples': samples[:4],
                       'tzname': list(time.tzname),
                       'local_utc_offsets_seen': sorted(local_offsets)[:6]}))
